@@ -312,7 +312,7 @@ def main():
                  "variants it is recorded to report, behaviour-preserving variants it must stay silent on), each applied to a scratch copy of the current working "
                  "tree; that self-test is written to the evidence and never changes the verdict. 18 genuine defects were repaired by fix: commits in /repo "
                  "(6de8880..7a61bad; F15 was found by the C17 typestate analysis, F16 after Engine C's codec catalogue was corrected) and 2 are known findings "
-                 "pinned by tests; see /verif/known_findings.txt and DESIGN.md sections 0-0f, 2 and 10. " + seed_summary(),
+                 "pinned by tests; see /verif/known_findings.txt and DESIGN.md sections 0-0h, 2 and 10. " + seed_summary(),
     }
     with open(os.path.join(VERIF, "MANIFEST.json"), "w") as f:
         json.dump(man, f, indent=1)
